@@ -34,6 +34,13 @@ out += ["", f"{n_ok}/{len(rows)} as expected.", "",
 for f in sorted(glob.glob(str(VERIF / "seeded" / "*" / "meta.json"))):
     m = json.load(open(f))
     out.append(f"| {m['id']} | {m['property']} | {m['what']} | {m['needs_to_manifest']} | {m['result']} | {m.get('caught_by', '')} |")
+out += ["", "### Behaviour-preserving refactors (`/verif/benign/<id>/`), negative controls", "",
+        "Large refactors written by sub-agents and verified by their own equivalence checks against",
+        "the original package; every quick check must stay silent on them.", "",
+        "| id | what | result |", "|---|---|---|"]
+for f in sorted(glob.glob(str(VERIF / "benign" / "*" / "meta.json"))):
+    m = json.load(open(f))
+    out.append(f"| {m['id']} | {m['what']} | {m['result']} |")
 p = VERIF / "DESIGN.md"
 s = p.read_text()
 a, b = s.index("<!-- CATCHES:BEGIN -->"), s.index("<!-- CATCHES:END -->")
